@@ -63,6 +63,9 @@ This round, start from the CODE rather than from the statement: read the functio
 - a helper reused for a second purpose with slightly different needs (sorted vs unsorted input, with vs without the constant term, active vs removed constraints, decision variables vs parameters).
 The change must read like a plausible refactoring / optimisation / clean-up of that code and keep the 102 tests green. Your demonstration test must construct the trigger deterministically and show the property's statement being violated.
 '''
+HARD6 = HARD5.replace("ROUND 5", "ROUND 6").replace("Four rounds", "Five rounds") + '''
+Already used in the previous code-first round, so pick something else: `.ok()` swallowing a missing-variable error; a short-circuit on a zero factor; `break` for `continue` in a per-sample or per-layer loop; fresh ids taken from the used instead of the defined variables; `map_while` ending a walk at an empty removed entry; only the first id of a grouped objective entry considered; `get_constant()` on a polynomial with several constant monomials; the `substituted_value` of earlier fixings erased by a later `partial_evaluate`; the kind guard narrowed to `Kind::Continuous`; an `as_integer_bound()` applied before scaling; `zip` of a sorted id set against a stored vector; `entry().or_insert` in a setter; a zero-entry section returning an empty vector; a malformed value swallowed by `parse().ok()`; a RANGES entry for an undeclared row skipped; LI/UI values rounded; default bound ends not written.
+'''
 os.makedirs('/tmp/seedwork', exist_ok=True)
 BENIGN = """You are a careful Rust engineer helping to evaluate a test oracle for FALSE ALARMS. The oracle is a runtime monitor that drives the public API of the OMMX Rust SDK with many generated inputs and checks ONE stated semantic property. A good oracle must stay silent on any code change that keeps the property true. Your job: produce realistic BEHAVIOUR-PRESERVING CHANGES ("benign refactorings") of the code the property is anchored in — changes after which the property STILL HOLDS for every input, but which alter as much as possible of what the property does NOT promise.
 
@@ -123,7 +126,7 @@ for pid, p in props.items():
         continue
     text = json.dumps({k: p[k] for k in ['id', 'title', 'statement', 'quantifier', 'why_tests_cant', 'anchors']}, indent=1)
     wt, out, demo = f'/tmp/seed{R}-{pid}', f'/tmp/seed{R}-{pid}-out', f'seeded_demo{R}_{pid.lower()}'
-    hard = {1: '', 2: HARD2, 3: HARD3, 4: HARD4, 5: HARD5}[rnd]
+    hard = {1: '', 2: HARD2, 3: HARD3, 4: HARD4, 5: HARD5, 6: HARD6}[rnd]
     prompt = f'''You are a careful Rust engineer helping to evaluate how well a test oracle detects regressions. Your job: produce realistic BREAKING CHANGES ("seeded defects") to the OMMX Rust SDK that violate ONE stated semantic property while still compiling and passing the project's existing test suite.
 
 ## Your workspace
